@@ -7,7 +7,7 @@
    (Independence). *)
 From Coq Require Import ZArith List Bool Lia.
 From Mistletoe Require Import Base.Sx Base.PyStr Base.PyText Gen.GenRegex Gen.GenConfig Re.ReMatch Model.CoreTokens Model.Block Proofs.ReFirst
-     Proofs.BlockProgress Proofs.Independence Proofs.QuoteLaw Proofs.ListLaw Proofs.ListLaw2 Proofs.FenceLaw Proofs.Prose Proofs.PlainProse Proofs.ProseLines Proofs.HeadingLaw Proofs.SetextLaw Proofs.ThematicLaw Spec.Fragment.
+     Proofs.BlockProgress Proofs.Independence Proofs.QuoteLaw Proofs.ListLaw Proofs.ListLaw2 Proofs.FenceLaw Proofs.Prose Proofs.PlainProse Proofs.ProseLines Proofs.HeadingLaw Proofs.SetextLaw Proofs.ThematicLaw Proofs.InertProse Proofs.EmphSimple Proofs.EmphSentence Spec.Fragment.
 Import ListNotations.
 Local Open Scope Z_scope.
 
@@ -130,6 +130,10 @@ Fixpoint wf_b (t : ftree) : bool :=
     Nat.leb 1 lv && Nat.leb lv 6 && plain_text (c :: body) && negb (mem 35 (c :: body)) && negb (mem 9 (c :: body)) &&
     negb (is_space_c c) && negb (is_space_c (last (c :: body) 0))
   | FRule c _ => (c =? 45) || (c =? 95) || (c =? 42)
+  | FEm c0 pre ch double w post =>
+    let line := c0 :: em_body pre ch double w post in
+    ((ch =? 42) || (ch =? 95)) && emph_word w && plain_text (c0 :: pre) && plain_text post && edge_pre (c0 :: pre) && edge_post post &&
+    plain_first c0 && nomatch fl_block_token_ListItem_pattern re_block_token_ListItem_pattern c0 && negb (is_space_c (last line 0))
   end.
 
 (* ---- the text of the spelled forms ---- *)
@@ -267,6 +271,53 @@ Section Main.
     cbn [tokenize_block length dispatch_loop]. rewrite T. reflexivity.
   Qed.
 
+  (* ---- FEm: a one-line paragraph with one emphasised phrase ---- *)
+  Definition em_line (c0 : Z) (pre : str) (ch : Z) (double : bool) (w post : str) : str := c0 :: em_body pre ch double w post.
+
+  Lemma em_wf c0 pre ch double w post : wf_b (FEm c0 pre ch double w post) = true ->
+    (ch = 42 \/ ch = 95) /\ emph_word w = true /\ plain_text (c0 :: pre) = true /\ plain_text post = true /\
+    edge_pre (c0 :: pre) = true /\ edge_post post = true /\ plain_first c0 = true /\
+    nomatch fl_block_token_ListItem_pattern re_block_token_ListItem_pattern c0 = true /\ is_space_c (last (em_line c0 pre ch double w post) 0) = false.
+  Proof.
+    cbn [wf_b]. cbv zeta. intros H. repeat rewrite andb_true_iff in H. destruct H as [[[[[[[[H1 H2] H3] H4] H5] H6] H7] H8] H9].
+    apply negb_true_iff in H9. repeat split; try assumption.
+    apply orb_true_iff in H1 as [H1|H1]; apply Z.eqb_eq in H1; auto.
+  Qed.
+
+  Lemma em_no_pipe c0 pre ch double w post : wf_b (FEm c0 pre ch double w post) = true -> mem 124 (em_line c0 pre ch double w post) = false.
+  Proof.
+    intros Hw. destruct (em_wf _ _ _ _ _ _ Hw) as (Hch & Hew & Hpre & Hpost & _).
+    unfold emph_word in Hew. repeat rewrite andb_true_iff in Hew. destruct Hew as [[[Hpw _] _] _].
+    assert (R : mem 124 (em_run ch double) = false) by (unfold em_run; destruct double, Hch as [->| ->]; reflexivity).
+    unfold em_line, em_body. change (c0 :: pre ++ em_run ch double ++ w ++ em_run ch double ++ post) with ((c0 :: pre) ++ em_run ch double ++ w ++ em_run ch double ++ post).
+    unfold mem. rewrite !existsb_app. fold (mem 124 (c0 :: pre)). fold (mem 124 (em_run ch double)). fold (mem 124 w). fold (mem 124 post).
+    rewrite (plain_no 124 _ eq_refl Hpre), (plain_no 124 _ eq_refl Hpw), (plain_no 124 _ eq_refl Hpost), R. reflexivity.
+  Qed.
+
+  Lemma em_block_line c0 pre ch double w post : wf_b (FEm c0 pre ch double w post) = true -> block_line (em_line c0 pre ch double w post).
+  Proof.
+    intros Hw. pose proof (em_no_pipe _ _ _ _ _ _ Hw) as Hpipe. destruct (em_wf _ _ _ _ _ _ Hw) as (_ & _ & _ & _ & _ & _ & Hfst & _ & Hlst).
+    split; [exact Hfst|]. split; [exact Hpipe|]. split; [discriminate|exact Hlst].
+  Qed.
+
+  Lemma em_text c0 pre ch double w post : text_of (spell (FEm c0 pre ch double w post)) = [em_line c0 pre ch double w post ++ [10]].
+  Proof. reflexivity. Qed.
+
+  Lemma em_try rec c0 pre ch double w post rest ln st : wf_b (FEm c0 pre ch double w post) = true -> (rest = [] \/ exists B, rest = NL :: B) ->
+    try_types types rec types (text_of (spell (FEm c0 pre ch double w post)) ++ rest) ln st = Some (pre_of md ln (FEm c0 pre ch double w post), 1%nat, st).
+  Proof.
+    intros Hw Hrest. rewrite em_text. cbn [app pre_of].
+    apply (try_types_para_lines types rec (em_line c0 pre ch double w post) rest ln st _ _ (em_block_line _ _ _ _ _ _ Hw)); [|exact Hp].
+    destruct Hrest as [->|[B ->]]; [reflexivity|]. cbn [para_loop]. rewrite nl_blank. reflexivity.
+  Qed.
+
+  Lemma em_tokenize f c0 pre ch double w post ln st : wf_b (FEm c0 pre ch double w post) = true ->
+    tokenize_block types (S f) (text_of (spell (FEm c0 pre ch double w post))) ln st = ([pre_of md ln (FEm c0 pre ch double w post)], false, st).
+  Proof.
+    intros Hw. pose proof (em_try (tokenize_block types f) c0 pre ch double w post [] ln st Hw (or_introl eq_refl)) as T. rewrite app_nil_r in T. rewrite em_text in *.
+    cbn [tokenize_block length dispatch_loop]. rewrite T. reflexivity.
+  Qed.
+
   Lemma cont_ok_reflect l : cont_okb l = true -> cont_line l /\ mem 9 l = false.
   Proof.
     unfold cont_okb. intros H. repeat rewrite andb_true_iff in H. destruct H as [[H1 H2] H3]. apply plain_line_reflect in H1. apply negb_true_iff in H3.
@@ -377,7 +428,7 @@ Section Main.
   Lemma first_line_follower t : is_item t = false -> wf_b t = true ->
     exists l2 more, text_of (spell t) = l2 :: more /\ (forall p, 0 < p -> parse_continuation l2 p = None) /\ parse_marker l2 = None.
   Proof.
-    intros Hi Hw. destruct t as [c body more|ch n content|ts|mk pad ts|lv hc hb|rc rn]; [| | |discriminate| |].
+    intros Hi Hw. destruct t as [c body more|ch n content|ts|mk pad ts|lv hc hb|rc rn|e0 epre ech edbl ew epost]; [| | |discriminate| | |].
     - destruct (wf_para c body more Hw) as (Hw' & Hnm & _).
       destruct Hw' as (Hpl & Hf1 & _ & _). cbn [hd] in Hf1.
       assert (Hc : first_ok c = true).
@@ -414,11 +465,26 @@ Section Main.
         * unfold parse_marker, tline. change (repeat 95 (S (S (S rn))) ++ [10]) with (95 :: (repeat 95 (S (S rn)) ++ [10])).
           rewrite rmatch_first; [reflexivity|vm_compute; reflexivity].
         * apply (bullets_no_marker 42 (S rn)). right. reflexivity.
+    - destruct (em_wf _ _ _ _ _ _ Hw) as (Hch & Hew & Hpre & Hpost & _ & _ & Hfst & Hnm & _). rewrite em_text.
+      eexists. eexists. split; [reflexivity|].
+      assert (Hc : first_ok e0 = true).
+      { apply nonspace_first_ok. unfold nonspace. change (cat_match CatSpace e0) with (is_space_c e0). rewrite (plain_first_not_space e0 Hfst). reflexivity. }
+      assert (Hb : mem 10 (em_body epre ech edbl ew epost) = false).
+      { unfold emph_word in Hew. repeat rewrite andb_true_iff in Hew. destruct Hew as [[[Hpw _] _] _].
+        assert (R : mem 10 (em_run ech edbl) = false) by (unfold em_run; destruct edbl, Hch as [->| ->]; reflexivity).
+        pose proof (plain_no 10 (e0 :: epre) eq_refl Hpre) as M. unfold mem in M. cbn [existsb] in M. apply orb_false_iff in M as [_ M].
+        unfold em_body, mem. rewrite !existsb_app. fold (mem 10 (em_run ech edbl)). fold (mem 10 ew). fold (mem 10 epost).
+        rewrite M, (plain_no 10 _ eq_refl Hpw), (plain_no 10 _ eq_refl Hpost), R. reflexivity. }
+      split.
+      + intros p Hp0. change (em_line e0 epre ech edbl ew epost ++ [10]) with (line_of 0 e0 (em_body epre ech edbl ew epost)).
+        apply parse_continuation_short; assumption.
+      + unfold parse_marker, em_line. change ((e0 :: em_body epre ech edbl ew epost) ++ [10]) with (e0 :: (em_body epre ech edbl ew epost ++ [10])).
+        rewrite rmatch_first by exact Hnm. reflexivity.
   Qed.
 
   Lemma C_from f : (forall f', f = S f' -> Q f') -> C f.
   Proof.
-    intros HQ t ln st Hw Hd. destruct t as [c body more|ch n content|ts|mk pad ts|lv hc hb|rc rn].
+    intros HQ t ln st Hw Hd. destruct t as [c body more|ch n content|ts|mk pad ts|lv hc hb|rc rn|e0 epre ech edbl ew epost].
     - split; [cbn [spell text_of map]; discriminate|]. intros B _. rewrite para_try_app by exact Hw. reflexivity.
     - split; [destruct (fence_wf ch n content Hw) as ((_ & H3) & _); rewrite fence_text by lia; discriminate|].
       intros B _. rewrite fence_try by exact Hw. reflexivity.
@@ -455,6 +521,7 @@ Section Main.
     - destruct (head_wf lv hc hb Hw) as [((H1 & _) & _) _]. split; [rewrite head_text by exact H1; discriminate|].
       intros B _. rewrite head_try by exact Hw. rewrite head_text by exact H1. reflexivity.
     - split; [rewrite rule_text; discriminate|]. intros B _. rewrite rule_try by exact Hw. rewrite rule_text. reflexivity.
+    - split; [rewrite em_text; discriminate|]. intros B _. rewrite (em_try _ _ _ _ _ _ _ (NL :: B) ln st Hw) by (right; exists B; reflexivity). rewrite em_text. reflexivity.
   Qed.
 
   Lemma Q_from f : P f -> C f -> Q f.
@@ -484,7 +551,7 @@ Section Main.
 
   Lemma P_succ f : Q f -> P (S f).
   Proof.
-    intros HQ t ln st Hw Hd. destruct t as [c body more|ch n content|ts|mk pad ts|lv hc hb|rc rn].
+    intros HQ t ln st Hw Hd. destruct t as [c body more|ch n content|ts|mk pad ts|lv hc hb|rc rn|e0 epre ech edbl ew epost].
     - rewrite para_tokenize by exact Hw. reflexivity.
     - rewrite fence_tokenize by exact Hw. reflexivity.
     - cbn [wf_b] in Hw. repeat rewrite andb_true_iff in Hw. destruct Hw as [[Hs Hall] Hg].
@@ -504,15 +571,17 @@ Section Main.
       destruct md; [rewrite andb_false_r; reflexivity|]. rewrite pre_seq_length. unfold nlines. cbn [negb andb]. rewrite andb_diag. reflexivity.
     - rewrite head_tokenize by exact Hw. reflexivity.
     - rewrite rule_tokenize by exact Hw. reflexivity.
+    - rewrite em_tokenize by exact Hw. reflexivity.
   Qed.
 
   Lemma P_zero : P 0.
   Proof.
-    intros t ln st Hw Hd. destruct t as [c body more|ch n content|ts|mk pad ts|lv hc hb|rc rn]; [| |cbn [depth] in Hd; lia|cbn [depth] in Hd; lia| |].
+    intros t ln st Hw Hd. destruct t as [c body more|ch n content|ts|mk pad ts|lv hc hb|rc rn|e0 epre ech edbl ew epost]; [| |cbn [depth] in Hd; lia|cbn [depth] in Hd; lia| | |].
     - rewrite para_tokenize by exact Hw. reflexivity.
     - rewrite fence_tokenize by exact Hw. reflexivity.
     - rewrite head_tokenize by exact Hw. reflexivity.
     - rewrite rule_tokenize by exact Hw. reflexivity.
+    - rewrite em_tokenize by exact Hw. reflexivity.
   Qed.
 
   Theorem fragment_all : forall f, P f /\ Q f.
@@ -568,7 +637,7 @@ Example fragment_instance :
 Proof. vm_compute. repeat split; reflexivity. Qed.
 
 (* ---- the token tree: the inline phase on the fragment ---- *)
-From Mistletoe Require Import Model.Tree Model.Inline Model.Build.
+From Mistletoe Require Import Model.Tree Model.Inline Model.Build Model.HtmlRenderer.
 
 Section TokOf.
   Variable md : bool.
@@ -590,6 +659,8 @@ Section TokOf.
            [ListItem (mkItem leader 0 (Z.of_nat (length leader + pad)) loose) (seq ts)]
     | FHead lv c body => Heading (Z.of_nat lv) [] [RawText (c :: body)]
     | FRule c n => ThematicBreak (repeat c (S (S (S n))))
+    | FEm c0 pre ch double w post =>
+      Paragraph (RawText (c0 :: pre) :: (if double then Strong [ch] [RawText w] else Emphasis [ch] [RawText w]) :: raw_if post)
     end.
   Fixpoint tok_seq (ts : list ftree) : list tok :=
     match ts with
@@ -604,6 +675,7 @@ Section Tokens.
   Variable fn : footnotes.
   Variable md : bool.
   Hypothesis Hquiet : prose_spans span_types = true.
+  Hypothesis Hemph : emph_spans span_types = true.
 
   Lemma build_para c body more ln : wf_b (FPara c body more) = true ->
     build span_types keep fn (pre_of md ln (FPara c body more)) = Some (tok_of md (FPara c body more)).
@@ -632,11 +704,24 @@ Section Tokens.
     cbn [pre_of build tok_of]. f_equal. f_equal. change (c :: repeat c (S (S n)) ++ [10]) with (tline c n). apply strip_tline. exact Hc.
   Qed.
 
+  Lemma build_em c0 pre ch double w post ln : wf_b (FEm c0 pre ch double w post) = true ->
+    build span_types keep fn (pre_of md ln (FEm c0 pre ch double w post)) = Some (tok_of md (FEm c0 pre ch double w post)).
+  Proof.
+    intros Hw. destruct (em_wf _ _ _ _ _ _ Hw) as (Hch & Hew & Hpre & Hpost & Hpe & Hpo & _).
+    cbn [pre_of build tok_of map concat]. rewrite app_nil_r.
+    change (c0 :: em_body pre ch double w post ++ [10]) with (em_line c0 pre ch double w post ++ [10]).
+    destruct (strip_block_line _ (em_block_line _ _ _ _ _ _ Hw)) as [S _]. rewrite S. unfold inline.
+    pose proof (emphasis_in_sentence span_types fn (mkHopts false false) ch double (c0 :: pre) w post Hch Hew Hpre Hpost Hpe Hpo Hemph) as [T _].
+    cbv zeta in T.
+    replace (em_line c0 pre ch double w post) with ((c0 :: pre) ++ (if double then [ch; ch] else [ch]) ++ w ++ (if double then [ch; ch] else [ch]) ++ post) by reflexivity.
+    rewrite T. reflexivity.
+  Qed.
+
   Lemma build_fragment : forall f t ln, (depth t <= f)%nat -> wf_b t = true ->
     build span_types keep fn (pre_of md ln t) = Some (tok_of md t).
   Proof.
     induction f as [|f IH]; intros t ln Hd Hw.
-    - destruct t as [c body more|ch n content|ts|mk pad ts|lv hc hb|rc rn]; [apply build_para; exact Hw|reflexivity|cbn [depth] in Hd; lia|cbn [depth] in Hd; lia|apply build_head; exact Hw|apply build_rule; exact Hw].
+    - destruct t as [c body more|ch n content|ts|mk pad ts|lv hc hb|rc rn|e0 epre ech edbl ew epost]; [apply build_para; exact Hw|reflexivity|cbn [depth] in Hd; lia|cbn [depth] in Hd; lia|apply build_head; exact Hw|apply build_rule; exact Hw|apply build_em; exact Hw].
     - assert (Kids : forall ts ln, Forall (fun t => (depth t <= f)%nat) ts -> forallb wf_b ts = true ->
                 flat_map (fun e => match build span_types keep fn e with Some t => [t] | None => [] end) (pre_seq md ln ts) = tok_seq md ts).
       { induction ts as [|t0 r IHr]; intros ln0 Hds Hws; [reflexivity|].
@@ -644,7 +729,7 @@ Section Tokens.
         cbn [pre_seq flat_map tok_seq]. rewrite (IH t0 ln0) by assumption. cbn [app]. f_equal.
         destruct r as [|t1 r']; [reflexivity|]. rewrite flat_map_app. rewrite IHr by assumption.
         f_equal. unfold blank_entry, blank_tok. destruct md; reflexivity. }
-      destruct t as [c body more|ch n content|ts|mk pad ts|lv hc hb|rc rn]; [apply build_para; exact Hw|reflexivity| | |apply build_head; exact Hw|apply build_rule; exact Hw].
+      destruct t as [c body more|ch n content|ts|mk pad ts|lv hc hb|rc rn|e0 epre ech edbl ew epost]; [apply build_para; exact Hw|reflexivity| | |apply build_head; exact Hw|apply build_rule; exact Hw|apply build_em; exact Hw].
       + cbn [wf_b] in Hw. repeat rewrite andb_true_iff in Hw. destruct Hw as [[_ Hall] _].
         rewrite pre_of_quote. cbn [build]. rewrite Kids; [reflexivity| |exact Hall].
         apply children_depth. cbn [depth] in Hd. exact Hd.
@@ -657,17 +742,17 @@ End Tokens.
 
 (* parse-after-write on the fragment, through the inline phase: the token tree is the tree the text was written from *)
 Theorem fragment_token_tree types span_types keep fn t f ln st :
-  fragment_config types = true -> prose_spans span_types = true -> wf_b t = true -> (depth t <= f)%nat ->
+  fragment_config types = true -> prose_spans span_types = true -> emph_spans span_types = true -> wf_b t = true -> (depth t <= f)%nat ->
   make_tokens span_types keep fn (fst (fst (tokenize_block types (S f) (text_of (spell t)) ln st))) = [tok_of false t].
 Proof.
-  intros Hc Hq Hw Hd. rewrite fragment_tree_cfg by assumption. cbn [fst]. unfold make_tokens. cbn [flat_map].
-  rewrite (build_fragment span_types keep fn false Hq f t ln Hd Hw). reflexivity.
+  intros Hc Hq He Hw Hd. rewrite fragment_tree_cfg by assumption. cbn [fst]. unfold make_tokens. cbn [flat_map].
+  rewrite (build_fragment span_types keep fn false Hq He f t ln Hd Hw). reflexivity.
 Qed.
 
 Theorem fragment_token_tree_markdown span_types keep fn t f ln st :
-  prose_spans span_types = true -> wf_b t = true -> (depth t <= f)%nat ->
+  prose_spans span_types = true -> emph_spans span_types = true -> wf_b t = true -> (depth t <= f)%nat ->
   make_tokens span_types keep fn (fst (fst (tokenize_block block_types_markdown (S f) (text_of (spell t)) ln st))) = [tok_of true t].
 Proof.
-  intros Hq Hw Hd. rewrite fragment_tree_markdown by assumption. cbn [fst]. unfold make_tokens. cbn [flat_map].
-  rewrite (build_fragment span_types keep fn true Hq f t ln Hd Hw). reflexivity.
+  intros Hq He Hw Hd. rewrite fragment_tree_markdown by assumption. cbn [fst]. unfold make_tokens. cbn [flat_map].
+  rewrite (build_fragment span_types keep fn true Hq He f t ln Hd Hw). reflexivity.
 Qed.
